@@ -6,8 +6,16 @@ use std::path::PathBuf;
 fn main() {
     let repo = std::env::var("VERIF_REPO").unwrap_or_else(|_| "/repo".to_string());
     let src = PathBuf::from(&repo).join("agdb_server/src/raft.rs");
-    println!("cargo:rerun-if-changed={}", src.display());
     println!("cargo:rerun-if-env-changed=VERIF_REPO");
+    generate(&src, "raft_gen.rs");
+    // the recorded baseline: the consensus core as it was when the known findings were recorded
+    // (used only to tell on which histories a recorded deviation is the recorded defect)
+    let base = PathBuf::from(std::env::var("CARGO_MANIFEST_DIR").unwrap()).join("baseline/raft.rs");
+    generate(&base, "raft_base_gen.rs");
+}
+
+fn generate(src: &PathBuf, out_name: &str) {
+    println!("cargo:rerun-if-changed={}", src.display());
     let text = std::fs::read_to_string(&src).unwrap_or_else(|e| panic!("cannot read {}: {e}", src.display()));
     let cut = text.find("#[cfg(test)]\nmod test").unwrap_or(text.len());
     let mut body = text[..cut].to_string();
@@ -85,6 +93,6 @@ impl Response {
 }
 "#,
     );
-    let out = PathBuf::from(std::env::var("OUT_DIR").unwrap()).join("raft_gen.rs");
+    let out = PathBuf::from(std::env::var("OUT_DIR").unwrap()).join(out_name);
     std::fs::write(out, body).unwrap();
 }
